@@ -24,6 +24,7 @@ import (
 	eth2v1 "github.com/attestantio/go-eth2-client/api/v1"
 	eth2spec "github.com/attestantio/go-eth2-client/spec"
 	"github.com/attestantio/go-eth2-client/spec/altair"
+	"github.com/attestantio/go-eth2-client/spec/electra"
 	eth2p0 "github.com/attestantio/go-eth2-client/spec/phase0"
 	k1 "github.com/decred/dcrd/dcrec/secp256k1/v4"
 	"github.com/libp2p/go-libp2p/core/peer"
@@ -32,6 +33,7 @@ import (
 	"github.com/obolnetwork/charon/app/eth2wrap"
 	"github.com/obolnetwork/charon/core"
 	"github.com/obolnetwork/charon/core/aggsigdb"
+	"github.com/obolnetwork/charon/core/bcast"
 	cqbft "github.com/obolnetwork/charon/core/consensus/qbft"
 	pbv1 "github.com/obolnetwork/charon/core/corepb/v1"
 	"github.com/obolnetwork/charon/core/dutydb"
@@ -74,6 +76,40 @@ func (c *c01eth2) GenesisDomain(ctx context.Context, typ eth2p0.DomainType) (eth
 	return c.Domain(ctx, typ, 0)
 }
 
+// c01bn is the beacon node as seen by one node's broadcaster (real core/bcast): it records what is submitted and
+// answers the lookups bcast makes for attestations that arrive without a validator index.
+type c01bn struct {
+	*c01eth2
+	w    *c01world
+	node int
+}
+
+func (b c01bn) CompleteValidators(context.Context) (eth2wrap.CompleteValidators, error) {
+	out := eth2wrap.CompleteValidators{}
+	for _, v := range b.w.cl.vals[:b.w.nvals] {
+		out[v.valIdx] = &eth2v1.Validator{Index: v.valIdx, Status: eth2v1.ValidatorStateActiveOngoing,
+			Validator: &eth2p0.Validator{PublicKey: eth2p0.BLSPubKey(v.group)}}
+	}
+	return out, nil
+}
+
+func (b c01bn) AttesterDuties(_ context.Context, o *eth2api.AttesterDutiesOpts) (*eth2api.Response[[]*eth2v1.AttesterDuty], error) {
+	var out []*eth2v1.AttesterDuty
+	for _, v := range b.w.cl.vals[:b.w.nvals] {
+		for _, i := range o.Indices {
+			if i == v.valIdx {
+				out = append(out, b.w.attDuty(v))
+			}
+		}
+	}
+	return &eth2api.Response[[]*eth2v1.AttesterDuty]{Data: out}, nil
+}
+
+func (b c01bn) SubmitAttestations(_ context.Context, o *eth2api.SubmitAttestationsOpts) error {
+	b.w.recordBN(b.node, o.Attestations)
+	return nil
+}
+
 var c01spec *eth2api.Response[map[string]any]
 
 func c01getSpec(t *testing.T) *eth2api.Response[map[string]any] {
@@ -98,7 +134,17 @@ func c01getSpec(t *testing.T) *eth2api.Response[map[string]any] {
 
 // ---- cluster material (once per process) -------------------------------------------------------------------------
 
+type c01val struct {
+	group   tbls.PublicKey
+	corePK  core.PubKey
+	shares  map[int]tbls.PrivateKey
+	valIdx  eth2p0.ValidatorIndex
+	commIdx eth2p0.CommitteeIndex
+	vci     uint64
+}
+
 type c01cluster struct {
+	vals      []c01val // [0] is also available through group/corePK/shares
 	n, t      int
 	k1keys    []*k1.PrivateKey
 	peers     []p2p.Peer
@@ -142,6 +188,24 @@ func c01newCluster(t *testing.T, n int) *c01cluster {
 	for idx, s := range c.shares {
 		c.pubshares[c.corePK][idx], _ = tbls.SecretToPublicKey(s)
 	}
+	c.vals = []c01val{{group: c.group, corePK: c.corePK, shares: c.shares, valIdx: c01valIdx, commIdx: c01commIdx, vci: 1}}
+	// a second validator of the cluster attesting in the same slot (another committee)
+	secret2, err := tbls.GenerateSecretKey()
+	if err != nil {
+		t.Fatal(err)
+	}
+	v2 := c01val{valIdx: c01valIdx + 4, commIdx: c01commIdx + 1, vci: 3}
+	v2.group, _ = tbls.SecretToPublicKey(secret2)
+	v2.corePK = core.PubKeyFrom48Bytes(v2.group)
+	v2.shares, err = tbls.ThresholdSplit(secret2, uint(n), uint(c.t))
+	if err != nil {
+		t.Fatal(err)
+	}
+	c.pubshares[v2.corePK] = map[int]tbls.PublicKey{}
+	for idx, s := range v2.shares {
+		c.pubshares[v2.corePK][idx], _ = tbls.SecretToPublicKey(s)
+	}
+	c.vals = append(c.vals, v2)
 	c01clusters[n] = c
 	return c
 }
@@ -154,6 +218,8 @@ type c01script struct {
 	Byz     int    `json:"byz"`     // -1 none, else the node that may equivocate with its own share
 	Choices []int  `json:"choices"` // deviations: index into the menu at each step (0 = default)
 	MaxDev  int    `json:"max_deviations"`
+	Vals    int    `json:"validators,omitempty"`  // validators of the cluster attesting in the slot (0 = 1)
+	Att     string `json:"attestation,omitempty"` // "" = deneb with validator index; "electra-noidx" = electra without validator index (what peers on v1.3.0-v1.4.1 send)
 }
 
 const (
@@ -208,10 +274,28 @@ func (n *c01node) GetDutyDefinition(context.Context, core.Duty) (core.DutyDefini
 func (n *c01node) RegisterFetcherFetchOnly(func(context.Context, core.Duty, core.DutyDefinitionSet, string, eth2p0.Root) error) {
 }
 
+func (w *c01world) attDuty(v c01val) *eth2v1.AttesterDuty {
+	return &eth2v1.AttesterDuty{PubKey: eth2p0.BLSPubKey(v.group), Slot: c01slot, ValidatorIndex: v.valIdx, CommitteeIndex: v.commIdx,
+		CommitteeLength: 8, CommitteesAtSlot: 4, ValidatorCommitteeIndex: v.vci}
+}
+
 func (n *c01node) defSet() core.DutyDefinitionSet {
-	return core.DutyDefinitionSet{n.world.cl.corePK: core.NewAttesterDefinition(&eth2v1.AttesterDuty{
-		PubKey: eth2p0.BLSPubKey(n.world.cl.group), Slot: c01slot, ValidatorIndex: c01valIdx, CommitteeIndex: c01commIdx,
-		CommitteeLength: 8, CommitteesAtSlot: 4, ValidatorCommitteeIndex: 1})}
+	out := core.DutyDefinitionSet{}
+	for _, v := range n.world.cl.vals[:n.world.nvals] {
+		out[v.corePK] = core.NewAttesterDefinition(n.world.attDuty(v))
+	}
+	return out
+}
+
+// dataFor is the attestation data of a candidate head for one validator: before electra the committee index is part of
+// the data, from electra on it is 0.
+func (w *c01world) dataFor(cand eth2p0.AttestationData, v c01val) eth2p0.AttestationData {
+	d := cand
+	d.Index = v.commIdx
+	if w.att == "electra-noidx" {
+		d.Index = 0
+	}
+	return d
 }
 
 // stub fetcher: hands the node's candidate data to its subscribers (consensus.Propose)
@@ -221,7 +305,13 @@ func (f c01fetcher) Fetch(ctx context.Context, duty core.Duty, defs core.DutyDef
 	set := core.UnsignedDataSet{}
 	for pk, d := range defs {
 		ad, _ := d.(core.AttesterDefinition)
-		set[pk] = core.AttestationData{Data: f.n.cand, Duty: ad.AttesterDuty}
+		data := f.n.cand
+		for _, v := range f.n.world.cl.vals {
+			if v.corePK == pk {
+				data = f.n.world.dataFor(f.n.cand, v)
+			}
+		}
+		set[pk] = core.AttestationData{Data: data, Duty: ad.AttesterDuty}
 	}
 	for _, s := range f.n.fetchSub {
 		if err := s(ctx, duty, set); err != nil {
@@ -266,6 +356,10 @@ func (v c01vapi) Subscribe(fn func(context.Context, core.Duty, core.ParSignedDat
 
 // signPartial: the validator client of a node signs attestation data with the node's key share.
 func (w *c01world) signPartial(share int, data eth2p0.AttestationData) (core.ParSignedData, error) {
+	return w.signPartialFor(w.cl.vals[0], share, w.dataFor(data, w.cl.vals[0]))
+}
+
+func (w *c01world) signPartialFor(v c01val, share int, data eth2p0.AttestationData) (core.ParSignedData, error) {
 	root, err := data.HashTreeRoot()
 	if err != nil {
 		return core.ParSignedData{}, err
@@ -274,13 +368,20 @@ func (w *c01world) signPartial(share int, data eth2p0.AttestationData) (core.Par
 	if err != nil {
 		return core.ParSignedData{}, err
 	}
-	sig, err := tbls.Sign(w.cl.shares[share], sroot[:])
+	sig, err := tbls.Sign(v.shares[share], sroot[:])
 	if err != nil {
 		return core.ParSignedData{}, err
 	}
 	bits := bitfield.NewBitlist(8)
-	bits.SetBitAt(1, true)
-	vi := eth2p0.ValidatorIndex(c01valIdx)
+	bits.SetBitAt(v.vci, true)
+	if w.att == "electra-noidx" {
+		cb := bitfield.NewBitvector64()
+		cb.SetBitAt(uint64(v.commIdx), true)
+		att := &eth2spec.VersionedAttestation{Version: eth2spec.DataVersionElectra,
+			Electra: &electra.Attestation{AggregationBits: bits, Data: &data, Signature: eth2p0.BLSSignature(sig), CommitteeBits: cb}}
+		return core.NewPartialVersionedAttestation(att, share)
+	}
+	vi := v.valIdx
 	att := &eth2spec.VersionedAttestation{Version: eth2spec.DataVersionDeneb, ValidatorIndex: &vi,
 		Deneb: &eth2p0.Attestation{AggregationBits: bits, Data: &data, Signature: eth2p0.BLSSignature(sig)}}
 	return core.NewPartialVersionedAttestation(att, share)
@@ -288,30 +389,37 @@ func (w *c01world) signPartial(share int, data eth2p0.AttestationData) (core.Par
 
 // vc is the validator client goroutine of one node: it asks its node for the data to attest, signs it once.
 func (n *c01node) vc(duty core.Duty) {
-	data, err := n.awaitAtt(n.ctx, c01slot, c01commIdx)
-	if err != nil {
-		return
-	}
-	pk, err := n.pkByAtt(n.ctx, c01slot, c01commIdx, c01valIdx)
-	if err != nil {
-		return
-	}
-	par, err := n.world.signPartial(n.idx+1, *data)
-	if err != nil {
-		return
+	set := core.ParSignedDataSet{}
+	for _, v := range n.world.cl.vals[:n.world.nvals] {
+		data, err := n.awaitAtt(n.ctx, c01slot, uint64(v.commIdx))
+		if err != nil {
+			return
+		}
+		pk, err := n.pkByAtt(n.ctx, c01slot, uint64(v.commIdx), uint64(v.valIdx))
+		if err != nil {
+			return
+		}
+		par, err := n.world.signPartialFor(v, n.idx+1, *data)
+		if err != nil {
+			return
+		}
+		set[pk] = par
 	}
 	n.signedN++
 	for _, s := range n.vapiSub {
-		_ = s(n.ctx, duty, core.ParSignedDataSet{pk: par})
+		_ = s(n.ctx, duty, set)
 	}
 }
 
 // recording broadcaster / aggsigdb wrapper
-type c01bcast struct{ n *c01node }
+type c01bcast struct {
+	n    *c01node
+	real bcast.Broadcaster // the real core/bcast component in front of the beacon-node stub
+}
 
-func (b c01bcast) Broadcast(_ context.Context, duty core.Duty, set core.SignedDataSet) error {
+func (b c01bcast) Broadcast(ctx context.Context, duty core.Duty, set core.SignedDataSet) error {
 	b.n.world.record(b.n.idx, "broadcast", duty, set)
-	return nil
+	return b.real.Broadcast(ctx, duty, set)
 }
 
 type c01aggdb struct {
@@ -325,6 +433,8 @@ func (a c01aggdb) Store(ctx context.Context, duty core.Duty, set core.SignedData
 }
 
 type c01world struct {
+	nvals int
+	att   string
 	cl    *c01cluster
 	eth2  *c01eth2
 	net   *fakenet.Net
@@ -357,6 +467,45 @@ func (w *c01world) record(node int, where string, duty core.Duty, set core.Signe
 	}
 }
 
+// recordBN judges what a node's broadcaster hands to its beacon node: every attestation is attributed to the validator it
+// names (validator index where the object carries one, else committee and position bits) and its signature is verified
+// under THAT validator's group key.
+func (w *c01world) recordBN(node int, atts []*eth2spec.VersionedAttestation) {
+	duty := core.NewAttesterDuty(c01slot)
+	for _, a := range atts {
+		e := c01emit{node: node, where: "beacon-node", at: time.Since(w.t0), dutyStr: duty.String(), pubkey: "unattributable"}
+		data, err := a.Data()
+		sigb, err2 := a.Signature()
+		if err == nil && err2 == nil {
+			var who *c01val
+			for i := range w.cl.vals[:w.nvals] {
+				v := &w.cl.vals[i]
+				switch {
+				case a.ValidatorIndex != nil:
+					if *a.ValidatorIndex == v.valIdx {
+						who = v
+					}
+				case a.Version >= eth2spec.DataVersionElectra:
+					if a.Electra != nil && a.Electra.CommitteeBits.BitAt(uint64(v.commIdx)) {
+						who = v
+					}
+				default:
+					if data.Index == v.commIdx {
+						who = v
+					}
+				}
+			}
+			if root, err := data.HashTreeRoot(); err == nil && who != nil {
+				if sroot, err := signing.GetDataRoot(context.Background(), w.eth2, signing.DomainBeaconAttester, data.Target.Epoch, root); err == nil {
+					e.root, e.pubkey = sroot, who.corePK
+					e.valid = tbls.Verify(who.group, sroot[:], tbls.Signature(sigb)) == nil
+				}
+			}
+		}
+		w.emits = append(w.emits, e)
+	}
+}
+
 // ---- one execution --------------------------------------------------------------------------------------------------------------
 
 type c01step struct {
@@ -381,7 +530,7 @@ func c01run(t *testing.T, sc c01script) (ex c01exec) {
 	spec := c01getSpec(t)
 	synctest.Test(t, func(t *testing.T) {
 		ctx, cancelAll := context.WithCancel(context.Background())
-		w := &c01world{cl: cl, net: fakenet.New(), t0: time.Now()}
+		w := &c01world{cl: cl, net: fakenet.New(), t0: time.Now(), nvals: max(sc.Vals, 1), att: sc.Att}
 		w.eth2 = &c01eth2{spec: spec, genesis: time.Now().Add(-time.Duration(c01slot) * 12 * time.Second)}
 		duty := core.NewAttesterDuty(c01slot)
 		deadlineFunc := func(core.Duty) (time.Time, bool) { return w.t0.Add(time.Hour), true }
@@ -422,7 +571,11 @@ func c01run(t *testing.T, sc c01script) (ex c01exec) {
 			}
 			adb := aggsigdb.NewMemDBV2(core.NewDeadliner(nctx, "aggsigdb", deadlineFunc))
 			go adb.Run(nctx)
-			core.Wire(n, c01fetcher{n}, cons, ddb, c01vapi{n}, pdb, psx, agg, c01aggdb{adb, n}, c01bcast{n})
+			bc, err := bcast.New(nctx, c01bn{w.eth2, w, i})
+			if err != nil {
+				t.Fatal(err)
+			}
+			core.Wire(n, c01fetcher{n}, cons, ddb, c01vapi{n}, pdb, psx, agg, c01aggdb{adb, n}, c01bcast{n, bc})
 		}
 		// the duty is triggered on every node; its validator client starts waiting for the data to sign
 		start := func(n *c01node) {
@@ -463,7 +616,7 @@ func c01run(t *testing.T, sc c01script) (ex c01exec) {
 			}
 			if sc.Byz >= 0 && !byzUsed {
 				// the equivocating node additionally sends a partial signature, made with its own share, over other data
-				menu = append(menu, act{"byz-all", 0}, act{"byz-one", 0}, act{"byz-badsig", 0})
+				menu = append(menu, act{"byz-all", 0}, act{"byz-one", 0}, act{"byz-badsig", 0}, act{"byz-relabel", 0}, act{"byz-relabel", 1})
 			}
 			c := 0
 			if step < len(sc.Choices) {
@@ -515,6 +668,34 @@ func c01run(t *testing.T, sc c01script) (ex c01exec) {
 				w.net.Down[cl.peerIDs[a.arg]] = true
 				w.nodes[a.arg].cancel()
 				ex.trace = append(ex.trace, fmt.Sprintf("CRASH node%d", a.arg))
+			case "byz-relabel":
+				// one Byzantine strategy (a single deviation): the node sends a genuine partial signature made with its own share
+				// - over data of its choice (arg 0) or over what another node proposes (arg 1) - and then the very same signature
+				// again under every other share index
+				byzUsed = true
+				data := c01attData(0x66)
+				if a.arg == 1 {
+					data = w.nodes[(sc.Byz+1)%sc.N].cand
+				}
+				if par, err := w.signPartial(sc.Byz+1, data); err == nil {
+					idxs := []int{sc.Byz + 1}
+					for x := 1; x <= sc.N; x++ {
+						if x != sc.Byz+1 {
+							idxs = append(idxs, x)
+						}
+					}
+					for _, shareIdx := range idxs {
+						set, _ := core.ParSignedDataSetToProto(core.ParSignedDataSet{cl.corePK: core.ParSignedData{SignedData: par.SignedData, ShareIdx: shareIdx}})
+						b, _ := proto.Marshal(&pbv1.ParSigExMsg{Duty: core.DutyToProto(duty), DataSet: set})
+						frame := append(c01uvarint(uint64(len(b))), b...)
+						for x := 0; x < sc.N; x++ {
+							if x != sc.Byz {
+								w.net.Inject(cl.peerIDs[sc.Byz], cl.peerIDs[x], "/charon/parsigex/2.0.0", frame)
+							}
+						}
+					}
+				}
+				ex.trace = append(ex.trace, fmt.Sprintf("BYZ relabel-flood(%d)", a.arg))
 			case "byz-all", "byz-one", "byz-badsig":
 				byzUsed = true
 				par, err := w.signPartial(sc.Byz+1, c01attData(0x66))
@@ -623,13 +804,16 @@ func TestVerifC01(t *testing.T) {
 		sigs, descs := c01check(ex)
 		bn, an := 0, 0
 		for _, e := range ex.emits {
-			if e.where == "broadcast" {
+			switch e.where {
+			case "broadcast":
 				bn++
-			} else {
+			case "beacon-node":
+				r.Count("objects_submitted_to_beacon_node", 1)
+			default:
 				an++
 			}
 		}
-		cls := fmt.Sprintf("n=%d:%s:devs=%d:broadcasts=%d", sc.N, sc.Inputs, ex.devs, bn)
+		cls := fmt.Sprintf("n=%d:%s:v=%d%s:devs=%d:broadcasts=%d", sc.N, sc.Inputs, max(sc.Vals, 1), sc.Att, ex.devs, bn)
 		r.Eval(cls)
 		r.Outcome(cls)
 		r.Steps(len(ex.steps))
@@ -647,7 +831,7 @@ func TestVerifC01(t *testing.T) {
 				r.Unconfirmed(sig)
 				continue
 			}
-			r.Violation(fmt.Sprintf("%s n=%d", sig, sc.N), fmt.Sprintf("%s [n=%d inputs=%s byz=%d schedule: %s]", descs[i], sc.N, sc.Inputs, sc.Byz, strings.Join(ex.trace, " | ")), sc)
+			r.Violation(fmt.Sprintf("%s n=%d", sig, sc.N), fmt.Sprintf("%s [n=%d inputs=%s byz=%d validators=%d %s schedule: %s]", descs[i], sc.N, sc.Inputs, sc.Byz, max(sc.Vals, 1), sc.Att, strings.Join(ex.trace, " | ")), sc)
 		}
 		return ex
 	}
@@ -666,10 +850,16 @@ func TestVerifC01(t *testing.T) {
 		inputs string
 		byz    int
 		maxDev int
+		vals   int
+		att    string
 	}
-	cfgs := []cfg{{4, "distinct", -1, 1}, {4, "leader-differs", 1, 1}, {3, "distinct", -1, 1}, {4, "equal", 0, 1}}
+	cfgs := []cfg{{4, "distinct", -1, 1, 1, ""}, {4, "leader-differs", 1, 1, 1, ""}, {3, "distinct", -1, 1, 1, ""}, {4, "equal", 0, 1, 1, ""},
+		// two validators of the cluster attesting in the slot; electra attestations without validator index (all partial
+		// signatures come in the form peers on v1.3.0-v1.4.1 send, so that the broadcaster has to resolve the indices)
+		{4, "equal", 1, 1, 2, ""}, {4, "equal", -1, 1, 2, "electra-noidx"}, {4, "leader-differs", 2, 1, 2, "electra-noidx"}, {3, "distinct", -1, 1, 1, "electra-noidx"}}
 	if th {
-		cfgs = []cfg{{4, "distinct", -1, 2}, {4, "leader-differs", 1, 2}, {3, "distinct", -1, 2}, {4, "equal", 0, 2}, {4, "leader-differs", -1, 2}, {3, "leader-differs", -1, 3}}
+		cfgs = []cfg{{4, "distinct", -1, 2, 1, ""}, {4, "leader-differs", 1, 2, 1, ""}, {3, "distinct", -1, 2, 1, ""}, {4, "equal", 0, 2, 1, ""}, {4, "leader-differs", -1, 2, 1, ""}, {3, "leader-differs", -1, 3, 1, ""},
+			{4, "equal", 1, 2, 2, ""}, {4, "equal", -1, 2, 2, "electra-noidx"}, {4, "leader-differs", 2, 2, 2, "electra-noidx"}, {3, "distinct", -1, 2, 1, "electra-noidx"}, {4, "distinct", 0, 2, 2, "electra-noidx"}}
 	}
 	sampled := 0
 	for _, c := range cfgs {
@@ -680,7 +870,7 @@ func TestVerifC01(t *testing.T) {
 			if r.Expired() {
 				return
 			}
-			sc := c01script{N: c.n, Inputs: c.inputs, Byz: c.byz, Choices: prefix, MaxDev: c.maxDev}
+			sc := c01script{N: c.n, Inputs: c.inputs, Byz: c.byz, Choices: prefix, MaxDev: c.maxDev, Vals: c.vals, Att: c.att}
 			ex := judge(sc)
 			if sampled < 2 && devs == 1 {
 				sampled++
